@@ -25,7 +25,7 @@ TRUSTED_BASE = [
     "Lean 4.33.0 kernel (thorough tier: re-checked with leanchecker); axioms allowed: propext, Classical.choice, Quot.sound; no native_decide / bv_decide / sorry / own axioms (audited on every run)",
     "hand-written Lean model (lean/Ftp/Model) of the anchored code and hand-written reference spec / Holds predicate (lean/Ftp/Spec)",
     "correspondence check = differential testing of the real code (rebuilt from /repo's working tree) against the compiled Lean model (ftpdriver); sampling plus the stated exhaustive scopes, not proof",
-    "translator tools/gen_source_facts.py (regular expressions over the source text): tables / constants regenerated into lean/Ftp/Generated/SourceFacts.lean, the fourteen one-command member functions of ftp::client translated into model programs and the command literals / decisive reply codes of src/client.cpp regenerated into lean/Ftp/Generated/ClientFacts.lean, proved equal to the model's in Props/*s.lean",
+    "translator tools/gen_source_facts.py (regular expressions over the source text): tables / constants regenerated into lean/Ftp/Generated/SourceFacts.lean, the fourteen one-command member functions of ftp::client translated into model programs and the command literals / decisive reply codes of src/client.cpp regenerated into lean/Ftp/Generated/ClientFacts.lean, try_parse_uint8/16/32 of src/utils.cpp translated into lean/Ftp/Generated/UtilsFacts.lean, proved equal to the model's in Props/*s.lean",
     "harness, generators and canonicalisation (harness/*.cpp, tools/*.py); g++ 12, Boost.Asio 1.83, OpenSSL 3, libstdc++ behave as documented",
 ]
 
